@@ -8,4 +8,5 @@ SPECIFICATION Spec
 VIEW View
 PROPERTY RoNeverChangesBase
 PROPERTY RoRefusesMutators
+PROPERTY InjectedIsReturned
 CHECK_DEADLOCK FALSE
